@@ -1276,7 +1276,20 @@ func c11MakeSpec(seed uint64, batch int) c11Spec {
 
 func c11WriteCorpus(repo, path string) (int, error) {
 	var items []c11CorpusItem
-	for _, s := range gen.Corpus(repo) {
+	texts := gen.Corpus(repo)
+	// results larger than the buffer pools' initial sizes (512 / 1024 bytes): the place where a pooled,
+	// grown buffer handed out without a copy shows under concurrency
+	for _, n := range []int{60, 150, 400} {
+		var nums, members []string
+		for i := 0; i < n; i++ {
+			nums = append(nums, fmt.Sprintf("%d", 1000+i))
+			members = append(members, fmt.Sprintf("%q: %q", fmt.Sprintf("key%03d", i), strings.Repeat("v", 6+i%5)))
+		}
+		for rep := 0; rep < 6; rep++ { // several copies so that random draws hit them often
+			texts = append(texts, fmt.Sprintf("[%s, %d]", strings.Join(nums, ", "), rep), fmt.Sprintf("{%s, \"rep\": %d}", strings.Join(members, ", "), rep))
+		}
+	}
+	for _, s := range texts {
 		it := c11CorpusItem{T: s}
 		mon.Guard(func() {
 			if jschema.New("root", s).Check() == nil {
